@@ -291,6 +291,29 @@ def do_random_other(rng):
     return rec
 
 
+def do_aux(rng):
+    """Beyond the property's four renderers: print_na_counts / print_memory_use of frames and lists (totality, purity;
+    reported as NOTE)."""
+    import dataiter as di
+    how = rng.choice(["print_na_counts", "print_memory_use"])
+    cls = rng.choice(["DataFrame", "ListOfDicts"])
+    rec = {"k": "any", "cls": cls, "how": how, "err": "", "pure": True, "shape_ok": True}
+    try:
+        if cls == "DataFrame":
+            nrow = rng.choice([0, 1, 3])
+            obj = di.DataFrame(**{random_name(rng, i): random_column(rng, nrow) for i in range(rng.choice([0, 1, 3]))})
+        else:
+            obj = di.ListOfDicts([{"a": rng.choice([1, None, "x", math.nan]), **({"b": None} if rng.random() < 0.5 else {})}
+                                  for _ in range(rng.choice([0, 1, 4]))])
+        before = snapshot(obj)
+        with contextlib.redirect_stdout(io.StringIO()):
+            getattr(obj, how)()
+        rec["pure"] = snapshot(obj) == before
+    except Exception as e:
+        rec["err"] = type(e).__name__ + ": " + str(e)[:80]
+    return rec
+
+
 def sig_of(rec):
     if rec["k"] == "frame":
         return {"k": "frame", "cls": rec.get("cls", "DataFrame"), "how": rec["how"], "nrow0": rec["in"]["nrow"] == 0,
@@ -323,6 +346,13 @@ def run(ctx):
     bad = ctx.validate("RenderTrace", slim)
     for i, clause in bad:
         ctx.fail(clause, sig_of(records[i]), {"rec": records[i]})
+    aux = [do_aux(rng) for _ in range(300 if quick else 3000)]
+    seen = {}
+    for i, clause in ctx.validate("RenderTrace", aux):
+        seen.setdefault(clause, aux[i])
+    for clause, rec in sorted(seen.items()):
+        ctx.notes.append("outside-listed-properties Render %s example=%s" % (clause, rec))
+    ctx.extra["neighbourhood"] = {"spec": "Render.JudgeAny", "calls": len(aux), "rejected_clauses": sorted(seen)}
     for i in range(0, len(records), max(1, len(records) // 6)):
         ctx.sample(records[i])
     ctx.extra["layouts_enumerated"] = len(lays)
